@@ -25,7 +25,12 @@ SPEC = dict(
           "delay. pool_slow: 6 pools per case (max 1-2, every worker inside a task that still needs 5.25-5.9 s / 6.4-7.0 s / "
           "7.2-8.8 s when the end call comes - just beyond the 5 s poll, just beyond the 5 s + 10 ms + 1 s polls of shutdown(), "
           "well beyond both - plus 1-3 short tasks queued behind), end calls rotated over shutdown() | drain(1-1200 ms)+stop() | "
-          "stop() | destructor | drain(short)+destructor; every such case is non-trivial. pool: non-trivial = shutdown began with a non-empty queue, or >=2 submitters were inside a submission at the same "
+          "stop() | destructor | drain(short)+destructor; every such case is non-trivial. pool_edge: 6 small pools per case - 4x the last submission of a "
+          "pool(0, max 1-2, idle 1-5 ms) placed one idle timeout (+ offset) after the warm-up tasks finished, with retiring "
+          "workers held 2-6 ms by a scripted lock delay, then destructor/shutdown(); 2x a fork-join parent (submits a child into "
+          "the same pool and waits for it, canary-guarded bound) on pool(0-1, max 2-3) alone or next to 0-3 short tasks; every "
+          "such case is non-trivial. pool (which also gets at most one fork-join parent per plan when max >= 2 and the queue "
+          "cannot fill): non-trivial = shutdown began with a non-empty queue, or >=2 submitters were inside a submission at the same "
           "time, or a worker idle-exit was observed between two submissions; distinct by hash of the plan text."),
     assumptions=["initialSize <= maxSize (documented as minimum and hard limit; the generator clips)",
                  "ShutdownMode::DETACHED is excluded: it is documented as leaking running threads past destruction",
